@@ -177,6 +177,7 @@ PENDING = {}
 
 # theorem families added after the first complete pass (DESIGN.md section 0)
 ADDENDA = {
+    "C04": " Comprehension = loop (C04Compr, 12 audited): comprStep_order (per item the filter is evaluated once and FIRST - the repaired order -, then key, then value; an item that fails the filter evaluates nothing else; first error wins), compr_filter_map / list_compr_filter_map / set_compr_filter_map / map_compr_filter_map (under purity of filter and element on the items that pass - nothing is asked of the element on rejected items - the comprehension yields a fresh cell holding (xs.filter c).map g, resp. its setAdd / mapPut fold = mkSet / mkMap), for_append_filter_map (the explicit loop `def r = []; for x in e do if c then append(r, ve) end; r`, exactly the AST the parser builds) and compr_equals_loop_list: both end in cells with the SAME contents.",
     "C16": " Library functions written in the language (C16Src, 157 audited, over the ASTs REGENERATED from src/ckl/modules/*.ckl on every run): the theorems of C19Src / C18Src that carry `Ext` (no frame, heap cell or output that existed before changed: union / intersection / diff / symmetric_diff, reverse_list, reduce, gcd, join, replace, filter, flatten, map_list, chunks, pairs, first_n, last_n, ...), `ExtBut a` (append_all changes exactly its first argument, also on a set cell) or freshness of the result cell (rest, reverse_list, first_n, chunks incl. the copied last chunk, pairs, map_list, filter), restated in C16's words (union_does_not_modify_its_arguments, append_all_changes_exactly_its_first_argument, chunks_returns_fresh_cells, ...).",
     "C15": " Evaluator level (C15Eval, 78 property theorems / 158 audited): the indexing node `s[i]` (strings and list cells, every int, negative from the end, exactly the runtime error 'ERROR' \"Index out of bounds\" at the node's position otherwise; booleans / decimals / invalid index kinds), the slice node `s[a to b]` / `s[a to *]` (= the clamped contiguous run; a list slice is a fresh cell, the operand unchanged), and substr / sublist / find / find_last / insert_at / delete_at / length / `+` through callPure and through call nodes compute exactly the Seq functions of the textbook theorems; the identities through the evaluator: `s[0 to k] + s[k to *] == s` evaluates to TRUE for every string, every list of self-equal values and every int k (split_join_str, split_join_list), length_slice, find_neg_one_iff_not_infix, delete_insert_restores for every int index.",
     "C18": " Theorems about the string library SOURCE by the translator route (C18Src, 21 audited): reverse_src (= List.reverse, involutive), join_src (= intercalate; join_split_src: join(split(s, sep), sep) = s for the source), q_src, replace_src (the recursive source = left-to-right non-overlapping substitution behind `start`, explicit fuel 30 * (length - start) + 30), replace_src_empty_pattern, esc_src, each with `Ext`; mutants of string.ckl break the proofs at check time, a comment-only change does not.",
@@ -224,7 +225,8 @@ ADDENDA = {
            "(C14Eval: eval_pos_irrelevant through all 30 evaluator functions, session_pos_irrelevant, output_pos_irrelevant, erase_eval). End to end "
            "(C14EndToEnd): interpret_layout_irrelevant - white space, LF/CRLF or a comment inserted at a token boundary of the source text gives the "
            "same value, output, error value and message, or a syntax error with the same message."
-           " Redundant parentheses and optional semicolons for ALL token lists (C14Parens): production_extends (all 51 productions: a production that succeeds keeps its result when a stopper token and anything else follows - the stopper set is derived from every look-ahead of the parser), parens_primary, paren_at_levels (operand position of every operator), paren_expr_stop (arguments, elements, right-hand sides, indices), paren_cond_stop, paren_statement_stop, parse_redundant_parens_general, trailing_semi_general (discharges trailing_semi_partial), interpret_parens_irrelevant, interpret_trailing_semi_irrelevant; the exceptions (a block followed by an operator, `-1` vs `-(1)`, `(a)` newline `(b)`, `;;`, dangling else) are stated as theorems or #guards.",
+           " Redundant parentheses and optional semicolons for ALL token lists (C14Parens): production_extends (all 51 productions: a production that succeeds keeps its result when a stopper token and anything else follows - the stopper set is derived from every look-ahead of the parser), parens_primary, paren_at_levels (operand position of every operator), paren_expr_stop (arguments, elements, right-hand sides, indices), paren_cond_stop, paren_statement_stop, parse_redundant_parens_general, trailing_semi_general (discharges trailing_semi_partial), interpret_parens_irrelevant, interpret_trailing_semi_irrelevant; the exceptions (a block followed by an operator, `-1` vs `-(1)`, `(a)` newline `(b)`, `;;`, dangling else) are stated as theorems or #guards."
+           " Literal spelling ANYWHERE in a program (C14SpellAny, 28 audited): int_spelling_scan / int_spelling_tokens (two spellings of the same int - decimal with underscores, 0x either case, 0b - at a token boundary before a number terminator give token lists equal up to positions; the respelled token is on the same line), string_spelling_scan (either quote style, control characters raw or as \\\\xHH), interpret_int_spelling_anywhere / interpret_string_spelling_anywhere / interpret_spellEq (any number of spelling and layout changes: same value, output, error value and message); `!=` vs `<>` anywhere is proved at scanner level (ne_spelling_scan_anywhere) and end to end for a comparison of stable operands (interpret_ne_spelling_stable_partial) - the parser congruence over all productions is the stated gap, and the syntax-error MESSAGE quotes the token, so the claim can only be about programs that parse.",
     "C17": " date - date on exact millisecond stamps: (d + k) - d = k for dates with a time of day (diffDays_addDays), antisymmetry, truncation spec."
            " Evaluator level (C17Eval, 49 audited): date arithmetic is part of the evaluator model now (date + n, date - n, date - date, int(date), decimal(date), date(int), date('yyyymmdd[hh[mmss]]') in callPure / nativeAdd / nativeSub; validated on 42 500 generated programs, 0 disagreements where the model answers, 2.6 % abstentions); through callPure and through eval of the operator nodes, for every date 1900-01-01..9999-12-31 with a whole-millisecond time of day and every n with the result in the calendar: add_then_sub ((d + n) - n == d), add_then_diff ((d + n) - d == n), int_date_roundtrip, date_int_roundtrip, add_one_next_day, less_iff_int_less, and the exact errors outside the calendar, each derived from the C17 theorems about Model/Date.lean.",
     "C20": " Evaluator level (C20Eval): per construct the error carries the failing node's own position, errors propagate unchanged, a failing call adds "
